@@ -19,7 +19,7 @@ use std::sync::atomic::{AtomicBool, AtomicU64, AtomicUsize, Ordering};
 
 pub struct Tracker;
 
-const CAP: usize = 1 << 18;
+const CAP: usize = 1 << 21;
 const MASK: usize = CAP - 1;
 const QCAP: usize = 1 << 16;
 const QBYTES_MAX: usize = 256 << 20;
@@ -126,7 +126,7 @@ unsafe fn find(addr: usize) -> Option<usize> {
     }
 }
 unsafe fn insert(e: Entry) {
-    if NLIVE >= CAP / 2 {
+    if NLIVE >= CAP / 4 * 3 {
         fatal(b"HARNESS-ERROR tracker table full\n");
     }
     let t = &mut *std::ptr::addr_of_mut!(TABLE);
